@@ -19,6 +19,7 @@ import ast
 import itertools
 
 from sa import core
+from sa import pat
 from sa import pycfg
 from sa import tpl
 
@@ -516,38 +517,39 @@ def check(model, rep, tier):
   facts = {}
   if ok:
     lp = loops[0]
+    scope_p, inner_p = ff.params(skip_self=False)[:2]
     facts['loop_test'] = core.norm(lp.test)
-    ok = core.norm(lp.test) in ('ctx_frame is not None', 'ctx_frame')
-    # advance on every iteration: last statement of the body, unconditional
-    last = lp.body[-1]
-    ok = ok and isinstance(last, ast.Assign) and core.norm(last) == \
-        'ctx_frame = ctx_frame.f_back'
-    brks = [b for b in ast.walk(lp) if isinstance(b, ast.Break)]
-    conts = [b for b in ast.walk(lp) if isinstance(b, ast.Continue)]
-    facts['breaks'] = len(brks)
-    ok = ok and not conts
-    # each break must be under `if innermost` inside the match test
-    match_ifs = [n for n in lp.body if isinstance(n, ast.If)]
-    ok = ok and len(match_ifs) == 1
+    b = pat.match('_F_ is not None', lp.test) or pat.match('_F_', lp.test)
+    ok = b is not None and '_F_' in b
+    if ok:
+      # advance on every iteration: last statement of the body, unconditional
+      ok = pat.match('_F_ = _F_.f_back', lp.body[-1], b) is not None
+      brks = [x for x in ast.walk(lp) if isinstance(x, ast.Break)]
+      conts = [x for x in ast.walk(lp) if isinstance(x, ast.Continue)]
+      facts['breaks'] = len(brks)
+      ok = ok and not conts
+      match_ifs = [n for n in lp.body if isinstance(n, ast.If)]
+      ok = ok and len(match_ifs) == 1
     if ok:
       mt = match_ifs[0]
       facts['match_test'] = core.norm(mt.test)
-      t = mt.test
-      ok = isinstance(t, ast.Compare) and isinstance(t.ops[0], ast.Is) and \
-          core.norm(t.comparators[0]) == 'caller_fn_scope' and \
-          'f_locals' in core.norm(t.left) and 'caller_fn_scope.name' in core.norm(t.left)
-      for b in brks:
+      ok = pat.match('_F_.f_locals.get(%s.name, None) is %s' % (scope_p, scope_p),
+                     mt.test, b) is not None
+      for x in brks:
         gd = None
         for i in ast.walk(mt):
           if isinstance(i, ast.If) and i is not mt and any(
-              x is b for s in i.body for x in ast.walk(s)):
+              y is x for st in i.body for y in ast.walk(st)):
             gd = core.norm(i.test)
-        if gd != 'innermost' or not any(x is b for s in mt.body for x in ast.walk(s)):
+        if gd != inner_p or not any(y is x for st in mt.body for y in ast.walk(st)):
           ok = False
       ok = ok and not mt.orelse
-      # result assigned inside the match
-      ok = ok and any(isinstance(s, ast.Assign) and core.norm(s) ==
-                      'result = ctx_frame' for s in mt.body)
+      res = [pat.match('_R_ = _F_', st, b) for st in mt.body]
+      res = [r for r in res if r]
+      ok = ok and len(res) == 1
+      if ok:
+        rets = [r for r in ast.walk(ff.node) if isinstance(r, ast.Return)]
+        ok = len(rets) == 1 and core.norm(rets[0].value) == res[0]['_R_']
   rep.check(ok, 'BI-FRAME', '%s:full-stack-walk' % ff.site,
             'the frame search must visit every frame up to the stack bottom, '
             'match by f_locals[scope.name] is scope, and stop early only at the '
